@@ -76,6 +76,23 @@ def conversions(k_max=3, with_gen=True):
                 "\nSummary\n\n\nParameters\n----------\na : int\n    the a\nb : str\n    the b\n\nNotes\n-----\nsome notes here\n")))
     out.append(("parse.function/google_trailing_section->emit.class", ("parse_function_emit_class",
                 'def f(a=1, b=2):\n    """Summary\n    Args:\n      a (int): the a\n      b (int): the b\n    Example:\n      >>> f()\n    """\n    return a\n')))
+    # a parse that raises after it has seen a defaulted parameter, and a parse whose first parameter has no default:
+    # state left behind by the failed call must not leak into the next one
+    out.append(("parse.docstring/numpydoc_raises_after_default", ("parse_docstring",
+                "\nSummary\n\n\nParameters\n----------\na : int\n    the a. Defaults to 5\n\nReturns\n-------\nint\n\n")))
+    out.append(("parse.docstring/google_leading_no_default", ("parse_docstring",
+                "Summary\nArgs:\n  limit (int): the limit\n  b (str): the b. Defaults to \"x\"\n")))
+    out.append(("parse.docstring/numpydoc_leading_no_default", ("parse_docstring",
+                "\nSummary\n\n\nParameters\n----------\nlimit : int\n    the limit\nb : str\n    the b. Defaults to \"x\"\n\n")))
+    # a Literal that lists a member twice (de-duplication must not go through an unordered set)
+    out.append(("emit.argparse/literal_duplicate_member", ("emit_dup_literal", None)))
+    # definitions whose docstring is present but empty
+    out.append(("parse.class/empty_docstring", ("parse_class_plain", 'class E1(object):\n    """"""\n    alpha: int = 1\n    beta: str = "b"\n')))
+    out.append(("parse.function/empty_docstring", ("parse_function", 'def e2(gamma=3, delta=4):\n    """   """\n    return gamma\n')))
+    # emitters called with different return entries one after the other
+    out.append(("emit.argparse/return_with_prose", ("emit_ret", ("argparse", "prose"))))
+    out.append(("emit.argparse/return_default_no_prose", ("emit_ret", ("argparse", "noprose"))))
+    out.append(("emit.function/return_default_no_prose", ("emit_ret", ("function", "noprose"))))
     if with_gen:
         out.append(("gen/class+prepend_import", ("gen", "class")))
         out.append(("gen/function", ("gen", "function")))
@@ -147,6 +164,24 @@ def run(spec):
         if arg == "argparse":
             return to_code(emit.argparse_function(ir))
         return emit.docstring(ir, docstring_format=arg)
+    if op == "parse_class_plain":
+        return canon(parse.class_(ast.parse(arg).body[0]))
+    if op == "emit_dup_literal":
+        from collections import OrderedDict
+
+        ir = {"name": None, "type": "static", "doc": "Summary", "returns": None, "params": OrderedDict((
+            ("mode", {"typ": "Literal['alpha', 'beta', 'alpha', 'gamma', 'delta']", "doc": "the mode", "default": "beta"}),))}
+        return to_code(emit.argparse_function(ir))
+    if op == "emit_ret":
+        sys.path.insert(0, os.environ.get("VERIF_HOME", "/verif"))
+        from mc import alphabets as al
+
+        kind, which = arg
+        ret = ("int", "the first result", ("code", "a + 1")) if which == "prose" else ("int", al.ABSENT, ("code", "a + 2"))
+        ir = al.make_ir([al.A_RED[0]], ret, False, 0)
+        if kind == "argparse":
+            return to_code(emit.argparse_function(ir))
+        return to_code(emit.function(ir, function_name="f", function_type="static"))
     if op == "gen":
         from doctrans.gen import gen
 
